@@ -249,7 +249,7 @@ def oracle_scale(ctx, o):
                     return not (finite(x) and finite(y)) or abs(x - y) > 1e-6 * max(abs(x), abs(y)) + 1e-12
             else:
                 def differs(x, y):
-                    return not (finite(x) and finite(y)) or abs(x - y) > 1e-11 * max(1.0, abs(x))
+                    return not (finite(x) and finite(y)) or abs(x - y) > 1e-10 * max(abs(x), abs(y))
             if len(xb) != len(xs) or not xb or any(differs(x, y) for x, y in zip(xb, xs)):
                 i = next((i for i, (x, y) in enumerate(zip(xb, xs)) if differs(x, y)), 0)
                 bad.append(f"{nm}[{i}] changes: {xb[i] if xb else None!r} -> {xs[i] if xs else None!r}")
